@@ -260,8 +260,6 @@ std::string tables_first_diff(const std::vector<std::pair<uint64_t, std::string>
 // ------------------------------------------------------------------ run / op context
 static std::map<uintptr_t, AllocInfo> g_live;  // ordered: interval lookup for ownership
 static uint32_t g_next_obj = 0;
-static int g_op_allocs = 0, g_fail_at = 0;
-static bool g_fault_fired = false;
 static TaskCtx g_main_ctx;
 
 void set_task_stack(TaskCtx* t) {
@@ -278,29 +276,36 @@ void set_task_stack(TaskCtx* t) {
 void run_reset_child() {
   g_live.clear();
   g_next_obj = 0;
-  g_op_allocs = g_fail_at = 0;
-  g_fault_fired = false;
-  g_main_ctx = TaskCtx{0, 0, 0, 0};
+  g_main_ctx = TaskCtx();
+  g_main_ctx.id = 0; g_main_ctx.events = 0;
   set_task_stack(&g_main_ctx);
   t_task = &g_main_ctx;
   vfs_clear();
 }
-void op_begin(int task, int opid, int kind, const char* fn) {
-  SH->cur_task = task;
-  SH->cur_op = opid;
-  SH->cur_op_kind = kind;
-  SH->cur_fault_fired = 0;
-  snprintf(SH->cur_fn, sizeof SH->cur_fn, "%s", fn ? fn : "");
-  g_op_allocs = 0;
-  g_fail_at = 0;
-  g_fault_fired = false;
-  g_in_op = true;
-  vfs_begin_op();
+void publish_ctx(TaskCtx* t) {
+  SH->cur_task = t->id;
+  SH->cur_op = t->cur_op;
+  SH->cur_op_kind = t->cur_kind;
+  SH->cur_fault_fired = t->fault_fired ? 1 : 0;
+  memcpy(SH->cur_fn, t->cur_fn, sizeof SH->cur_fn);
 }
-void op_end() { g_in_op = false; g_fail_at = 0; }
-void arm_alloc_fault(int k) { g_fail_at = k; }
-int op_alloc_count() { return g_op_allocs; }
-bool op_fault_fired() { return g_fault_fired; }
+void op_begin(int task, int opid, int kind, const char* fn) {
+  TaskCtx* t = t_task;
+  t->id = task;
+  t->cur_op = opid;
+  t->cur_kind = kind;
+  snprintf(t->cur_fn, sizeof t->cur_fn, "%s", fn ? fn : "");
+  t->op_allocs = 0;
+  t->fail_at = 0;
+  t->fault_fired = false;
+  t->io_steps = 0;
+  publish_ctx(t);
+  g_in_op = true;
+}
+void op_end() { g_in_op = false; t_task->fail_at = 0; t_task->fault_fired = false; SH->cur_fault_fired = 0; }
+void arm_alloc_fault(int k) { t_task->fail_at = k; }
+int op_alloc_count() { return t_task->op_allocs; }
+bool op_fault_fired() { return t_task->fault_fired; }
 size_t live_count() { return g_live.size(); }
 void live_snapshot(std::vector<std::pair<void*, AllocInfo>>& out) {
   out.clear();
@@ -319,31 +324,32 @@ const AllocInfo* live_find(const void* p) {
 static bool alloc_gate(size_t size, const char* what) {
   SH->seam_calls++;
   sched_visible("alloc");
-  ++g_op_allocs;
-  if (g_fail_at && g_op_allocs == g_fail_at) {
-    g_fault_fired = true;
+  TaskCtx* t = t_task;
+  ++t->op_allocs;
+  if (t->fail_at && t->op_allocs == t->fail_at) {
+    t->fault_fired = true;
     SH->cur_fault_fired = 1;
     SH->faults[FK_ALLOC]++;
-    logf("A #%d %s %zu FAIL", g_op_allocs, what, size);
+    logf("A #%d %s %zu FAIL", t->op_allocs, what, size);
     errno = ENOMEM;
     return true;
   }
   return false;
 }
 static void alloc_record(void* p, size_t size, const char* what, uintptr_t s0, uintptr_t s1) {
-  if (!p) { logf("A #%d %s %zu -> NULL(real)", g_op_allocs, what, size); return; }
+  if (!p) { logf("A #%d %s %zu -> NULL(real)", t_task->op_allocs, what, size); return; }
   AllocInfo ai;
   ai.id = g_next_obj++;
   ai.size = (uint32_t)size;
-  ai.task = SH->cur_task;
-  ai.op = SH->cur_op;
-  ai.nth = g_op_allocs;
+  ai.task = t_task->id;
+  ai.op = t_task->cur_op;
+  ai.nth = t_task->op_allocs;
   ai.site0 = s0;
   ai.site1 = s1;
   g_live[(uintptr_t)p] = ai;
   race_forget_range((uintptr_t)p, size);
   SH->allocs++;
-  logf("A #%d %s %zu -> o%u", g_op_allocs, what, size, ai.id);
+  logf("A #%d %s %zu -> o%u", t_task->op_allocs, what, size, ai.id);
 }
 static void alloc_forget(void* p, const char* what) {
   if (!p) return;
@@ -362,24 +368,22 @@ static void alloc_forget(void* p, const char* what) {
 }
 
 // ------------------------------------------------------------------ virtual files
-struct Cookie { VFile f; long pos; long calls; bool eio_reported; bool short_reported; };
+struct Cookie { VFile f; long pos; long calls; bool eio_reported; bool short_reported; TaskCtx* owner; };
 static std::vector<VFile> g_vfiles;
-static int g_open_streams = 0;
-static long g_io_steps = 0, g_io_budget = 0;
 
-void vfs_clear() { g_vfiles.clear(); g_open_streams = 0; }
+void vfs_clear() { g_vfiles.clear(); }
 void vfs_add(const VFile& f) {
   for (auto& e : g_vfiles)
     if (e.name == f.name) { e = f; return; }
   g_vfiles.push_back(f);
 }
-int vfs_open_streams() { return g_open_streams; }
-void vfs_begin_op() { g_io_steps = 0; }
+int vfs_open_streams() { return t_task->open_streams; }
+void vfs_begin_op() { t_task->io_steps = 0; }
 
 static ssize_t ck_read(void* c, char* buf, size_t size) {
   Cookie* k = (Cookie*)c;
-  if (++g_io_steps > g_io_budget) {
-    violation("no-progress", SH->cur_fn, "I/O step budget %ld exceeded reading '%s' (pos %ld)", g_io_budget, k->f.name.c_str(), k->pos);
+  if (++k->owner->io_steps > k->owner->io_budget) {
+    violation("no-progress", k->owner->cur_fn, "I/O step budget %ld exceeded reading '%s' (pos %ld)", k->owner->io_budget, k->f.name.c_str(), k->pos);
     child_exit(0);
   }
   long len = (long)k->f.content.size();
@@ -430,7 +434,7 @@ static int ck_seek(void* c, off64_t* off, int whence) {
 }
 static int ck_close(void* c) {
   Cookie* k = (Cookie*)c;
-  g_open_streams--;
+  k->owner->open_streams--;
   logf("CLOSE %s", k->f.name.c_str());
   delete k;
   return 0;
@@ -449,6 +453,11 @@ static inline uintptr_t ra1() {
   void** up = (void**)fp[0];
   if (!up || (uintptr_t)up < (uintptr_t)fp || (uintptr_t)up - (uintptr_t)fp > (1 << 20)) return 0;
   return (uintptr_t)up[1];
+}
+
+// a locale-dependent libc call reads the process-wide locale only while the thread has not installed its own
+static inline void locale_read(const char* what, uintptr_t pc) {
+  if (uselocale((locale_t)0) == LC_GLOBAL_LOCALE) virt_access(VL_LOCALE_NUMERIC, false, what, pc);
 }
 
 extern "C" {
@@ -497,14 +506,14 @@ char* xs_strndup(const char* s, size_t len) {
   return p;
 }
 int xs_vasprintf(char** out, const char* fmt, va_list ap) {
-  virt_access(VL_LOCALE_NUMERIC, false, "vasprintf", RA0);
+  locale_read("vasprintf", RA0);
   if (alloc_gate(0, "vasprintf")) return -1;
   int r = vasprintf(out, fmt, ap);
   if (r >= 0) alloc_record(*out, (size_t)r + 1, "vasprintf", RA0, ra1());
   return r;
 }
 int xs_asprintf(char** out, const char* fmt, ...) {
-  virt_access(VL_LOCALE_NUMERIC, false, "asprintf", RA0);
+  locale_read("asprintf", RA0);
   if (alloc_gate(0, "asprintf")) return -1;
   va_list ap;
   va_start(ap, fmt);
@@ -526,13 +535,13 @@ FILE* xs_fopen(const char* name, const char* mode) {
         errno = f.open_errno;
         return nullptr;
       }
-      Cookie* k = new Cookie{f, 0, 0, false, false};
+      Cookie* k = new Cookie{f, 0, 0, false, false, t_task};
       cookie_io_functions_t io = {ck_read, nullptr, ck_seek, ck_close};
       FILE* fp = fopencookie(k, "r", io);
       if (!fp) { delete k; return nullptr; }
-      g_open_streams++;
+      t_task->open_streams++;
       long len = (long)f.content.size();
-      g_io_budget = 10 * len + 1000;
+      t_task->io_budget = 10 * len + 1000;
       if (f.trunc_at >= 0 && f.trunc_at < len) SH->faults[FK_TRUNC]++;
       logf("FOPEN %s -> ok", name);
       return fp;
@@ -564,17 +573,47 @@ char* xs_setlocale(int cat, const char* name) {
   if (changed && g_locale_cfg == LOC_XX) SH->probes[PR_LOCALE_WRITE_NONC]++;
   return r;
 }
-double xs_strtod(const char* s, char** end) { virt_access(VL_LOCALE_NUMERIC, false, "strtod", RA0); return strtod(s, end); }
-float xs_strtof(const char* s, char** end) { virt_access(VL_LOCALE_NUMERIC, false, "strtof", RA0); return strtof(s, end); }
-long double xs_strtold(const char* s, char** end) { virt_access(VL_LOCALE_NUMERIC, false, "strtold", RA0); return strtold(s, end); }
-double xs_atof(const char* s) { virt_access(VL_LOCALE_NUMERIC, false, "atof", RA0); return atof(s); }
+// POSIX per-thread locales: objects are tracked like allocations (a forgotten freelocale is a leak,
+// newlocale/duplocale can fail with ENOMEM); uselocale only touches the calling thread
+locale_t xs_newlocale(int mask, const char* name, locale_t base) {
+  SH->seam_calls++;
+  if (alloc_gate(0, "newlocale")) return (locale_t)0;   // on failure the base is left untouched
+  uintptr_t s0 = RA0, s1 = ra1();
+  if (base) alloc_forget((void*)base, "newlocale(base)");
+  locale_t r = newlocale(mask, name, base);
+  if (r) alloc_record((void*)r, 1, "newlocale", s0, s1);
+  return r;
+}
+locale_t xs_duplocale(locale_t l) {
+  SH->seam_calls++;
+  if (l == LC_GLOBAL_LOCALE) { virt_access(VL_LOCALE_NUMERIC, false, "duplocale(global)", RA0); virt_access(VL_LOCALE_OTHER, false, "duplocale(global)", RA0); }
+  if (alloc_gate(0, "duplocale")) return (locale_t)0;
+  locale_t r = duplocale(l);
+  if (r) alloc_record((void*)r, 1, "duplocale", RA0, ra1());
+  return r;
+}
+void xs_freelocale(locale_t l) {
+  SH->seam_calls++;
+  alloc_forget((void*)l, "freelocale");
+  freelocale(l);
+}
+locale_t xs_uselocale(locale_t l) {
+  SH->seam_calls++;
+  locale_t old = uselocale(l);
+  if (l) logf("USELOCALE %s", l == LC_GLOBAL_LOCALE ? "global" : "thread-local");
+  return old;
+}
+double xs_strtod(const char* s, char** end) { locale_read("strtod", RA0); return strtod(s, end); }
+float xs_strtof(const char* s, char** end) { locale_read("strtof", RA0); return strtof(s, end); }
+long double xs_strtold(const char* s, char** end) { locale_read("strtold", RA0); return strtold(s, end); }
+double xs_atof(const char* s) { locale_read("atof", RA0); return atof(s); }
 long xs_strtol(const char* s, char** e, int b) { return strtol(s, e, b); }
 unsigned long xs_strtoul(const char* s, char** e, int b) { return strtoul(s, e, b); }
 int xs_atoi(const char* s) { return atoi(s); }
 int __isoc99_vsscanf(const char*, const char*, va_list);
 int __isoc99_vfscanf(FILE*, const char*, va_list);
 int xs___isoc99_sscanf(const char* s, const char* fmt, ...) {
-  virt_access(VL_LOCALE_NUMERIC, false, "sscanf", RA0);
+  locale_read("sscanf", RA0);
   va_list ap;
   va_start(ap, fmt);
   int r = __isoc99_vsscanf(s, fmt, ap);
@@ -582,7 +621,7 @@ int xs___isoc99_sscanf(const char* s, const char* fmt, ...) {
   return r;
 }
 int xs___isoc99_fscanf(FILE* f, const char* fmt, ...) {
-  virt_access(VL_LOCALE_NUMERIC, false, "fscanf", RA0);
+  locale_read("fscanf", RA0);
   va_list ap;
   va_start(ap, fmt);
   int r = __isoc99_vfscanf(f, fmt, ap);
@@ -590,7 +629,7 @@ int xs___isoc99_fscanf(FILE* f, const char* fmt, ...) {
   return r;
 }
 int xs_sscanf(const char* s, const char* fmt, ...) {
-  virt_access(VL_LOCALE_NUMERIC, false, "sscanf", RA0);
+  locale_read("sscanf", RA0);
   va_list ap;
   va_start(ap, fmt);
   int r = vsscanf(s, fmt, ap);
@@ -598,7 +637,7 @@ int xs_sscanf(const char* s, const char* fmt, ...) {
   return r;
 }
 int xs_fscanf(FILE* f, const char* fmt, ...) {
-  virt_access(VL_LOCALE_NUMERIC, false, "fscanf", RA0);
+  locale_read("fscanf", RA0);
   va_list ap;
   va_start(ap, fmt);
   int r = vfscanf(f, fmt, ap);
@@ -698,11 +737,11 @@ int xs_setenv(const char* n, const char* v, int o) { virt_access(VL_ENV, true, "
 int xs_putenv(char* s) { virt_access(VL_ENV, true, "putenv", RA0); return putenv(s); }
 int xs_chdir(const char* p) {
   virt_access(VL_CWD, true, "chdir", RA0);
-  violation("global-state", SH->cur_fn, "library changed the working directory to '%s'", p ? p : "(null)");
+  violation("global-state", t_task->cur_fn, "library changed the working directory to '%s'", p ? p : "(null)");
   return 0;
 }
 int xs_fesetround(int m) {
-  violation("global-state", SH->cur_fn, "library changed the floating-point rounding mode to %d", m);
+  violation("global-state", t_task->cur_fn, "library changed the floating-point rounding mode to %d", m);
   return 0;
 }
 
